@@ -23,6 +23,17 @@
                                    (the 3-D face orbit), i.e. one entity per dart of the face …
   * `C20_3d_face_darts_nodup`      … and none twice, provided `β3 f` is not on the β1-cycle of `f`
                                    (`C20_3d_self_glued_face_twice`: otherwise every dart appears TWICE)
+  * `faceId3_min`, `run_faceId3_eq`, `mem_iterFaces3_iff`
+                                   (+ Mirror, Sided) `face_id_transac` of a 3-map succeeds and returns the
+                                   smallest dart of the two-sided face (Lemmas/SceneFace3.lean analyses the
+                                   lock-step walk); `iter_faces` yields exactly these minima
+  * `C20_3d_each_dart_once`        (+ Mirror, Sided, NoSelfGlue) every in-use dart has exactly one dart
+                                   entity and no other dart has one
+  * `C20_3d_no_panic`              (WF, ClosedFaces, NoLoops, Mirror, Sided, Embedded3) the 3-D start-up
+                                   system does not panic: `vertex_id` / `edge_id` / `volume_id` do not run
+                                   out of fuel (`popLoop_terminates`), every lookup in `index_map` succeeds
+  * `C20_face_normal_keys`, `C20_3d_face_normal_keys`, `C20_3d_volume_normal_keys`
+                                   the keys of the two normal resources
   * normals, exact part over ℚ (see the section): `C20_D20a_zero_normal_iff`,
     `C20_D20a_straight_corner`, `C20_3d_normal_nonzero`, `C20_2d_normal_nonzero_iff`,
     `C20_plane_normal_of_scene`
@@ -30,6 +41,8 @@
   NOT PROVED here: see SPEC["not_proved"] of tools/props/c20.py.
 -/
 import Honeycomb.Props.C20
+import Honeycomb.Lemmas.SceneFace3
+import Honeycomb.Lemmas.Cell3
 import Mathlib.Tactic.Ring
 import Mathlib.Tactic.Linarith
 import Mathlib.Tactic.FieldSimp
@@ -642,6 +655,331 @@ theorem C20_3d_self_glued_face_twice (hwf : WF 4 m) (hcl : ClosedFaces m) {f : N
 
 end Mirror3
 
+/-! ## `face_id` in 3-D is the minimum of the two-sided face, and every in-use dart gets ONE entity -/
+
+section FaceId
+open HC.Face3
+variable {m : Map Val} {sc : Scene}
+
+theorem run_faceId3 {X : Type} {m : Map X} (hwf : WF 4 m) {d : Nat} (hd : d < m.n)
+    {lbF rbF : Nat} {mkF : List Nat} {mnF : Nat}
+    (h1 : fw (m.β 1) (m.β 0) (m.n + 1) d (m.β 3 d) [0]
+      (if m.β 3 d = 0 then d else min d (m.β 3 d)) = some (lbF, rbF, mkF, mnF)) :
+    (¬ (lbF = 0 ∨ rbF = 0) → run (faceId3 (X := X) m.n d) m = (.ok mnF, m)) ∧
+    ((lbF = 0 ∨ rbF = 0) → ∀ a b c mn2, fw (m.β 0) (m.β 1) (m.n + 1) (m.β 0 d) (m.β 1 (m.β 3 d)) mkF
+        (upd mnF (m.β 0 d) (m.β 1 (m.β 3 d))) = some (a, b, c, mn2) →
+        run (faceId3 (X := X) m.n d) m = (.ok mn2, m)) := by
+  have ok3 : m.okβ 3 d = true := (hwf.toSized.okβ 3 d).2 ⟨by omega, hd⟩
+  have ok0 : m.okβ 0 d = true := (hwf.toSized.okβ 0 d).2 ⟨by omega, hd⟩
+  have he : m.β 3 d < m.n := hwf.range 3 (by omega) d hd
+  have ok1 : m.okβ 1 (m.β 3 d) = true := (hwf.toSized.okβ 1 _).2 ⟨by omega, he⟩
+  have w1 := run_faceWalk3 hwf (i := 1) (j := 0) (by omega) (by omega) (m.n + 1) d (m.β 3 d) [0]
+    (if m.β 3 d = 0 then d else min d (m.β 3 d)) hd he
+  rw [h1] at w1
+  constructor
+  · intro hc
+    unfold faceId3
+    simp only [Prog.bind_eq, Prog.pure_eq]
+    rw [run_rB, if_pos ok3, run_bind, w1]
+    simp only [hc, if_false, run_ret]
+  · intro hc a b c mn2 h2
+    have w2 := run_faceWalk3 hwf (i := 0) (j := 1) (by omega) (by omega) (m.n + 1) (m.β 0 d)
+      (m.β 1 (m.β 3 d)) mkF (upd mnF (m.β 0 d) (m.β 1 (m.β 3 d)))
+      (hwf.range 0 (by omega) d hd) (hwf.range 1 (by omega) _ he)
+    rw [h2] at w2
+    unfold faceId3
+    simp only [Prog.bind_eq, Prog.pure_eq]
+    rw [run_rB, if_pos ok3, run_bind, w1]
+    simp only [hc, if_true]
+    rw [run_rB, if_pos ok0, run_rB, if_pos ok1, run_bind]
+    unfold upd at w2
+    simp only [] at w2
+    rw [w2]
+    rfl
+
+theorem iterate_fix0 {f : Nat → Nat} (h : f 0 = 0) : ∀ s, f^[s] 0 = 0 := by
+  intro s
+  induction s with
+  | zero => rfl
+  | succ s ih => rw [Function.iterate_succ_apply', ih, h]
+
+/-- the right-hand sequence of `face_id` is the mirror image of the left-hand one -/
+theorem rb_eq (hwf : WF 4 m) (hcl : ClosedFaces m) (hM : Mirror m) (hs : Sided m) {d : Nat}
+    (hd : InUse m d) (h3 : m.β 3 d ≠ 0) (s : Nat) :
+    (m.β 0)^[s] (m.β 3 d) = m.β 3 ((m.β 1)^[s] d) := by
+  have he := inUse_image4 hwf hd (by omega : 3 < 4) h3
+  have hinv : m.β 3 (m.β 3 d) = d := (hwf.invol 3 (by omega) (by omega) d hd.2.1 h3).1
+  have h3e : m.β 3 (m.β 3 d) ≠ 0 := by rw [hinv]; exact hd.1
+  have key := (C20_3d_second_side_is_mirror hwf hcl hM hs he h3e).1 s
+  rw [hinv] at key
+  -- `β1^s d = β3 (β0^s e)`; apply the involution
+  have hy := (periodB_spec hwf (by omega) hcl he).2.2.2 _ (b0_iter_mem hwf (by omega) hcl he s)
+  have hne : m.β 3 ((m.β 0)^[s] (m.β 3 d)) ≠ 0 := by
+    rw [← key]
+    exact ((periodB_spec hwf (by omega) hcl hd).2.2.2 _ (mem_cycleB_iterate hwf (by omega) hcl hd s)).1
+  rw [key]
+  exact ((hwf.invol 3 (by omega) (by omega) _ hy.2.1 hne).1).symm
+
+/-- every dart of the β1-cycle of `d` is `β1^s d` for some `1 ≤ s ≤ period` -/
+theorem cycle_index (hwf : WF 4 m) (hcl : ClosedFaces m) {d x : Nat} (hd : InUse m d)
+    (hx : x ∈ cycleB m d) : ∃ s, 1 ≤ s ∧ s ≤ periodB m d ∧ (m.β 1)^[s] d = x := by
+  obtain ⟨hpos, hcyc, _, _⟩ := periodB_spec hwf (by omega) hcl hd
+  unfold cycleB at hx
+  rw [List.mem_iterate] at hx
+  obtain ⟨j, hj, rfl⟩ := hx
+  by_cases h0 : j = 0
+  · subst h0; exact ⟨periodB m d, hpos, Nat.le_refl _, hcyc⟩
+  · exact ⟨j, by omega, by omega, rfl⟩
+
+/-- **`face_id` (3-D) is the smallest dart of the two-sided face** (closed, mirrored, wholly
+    3-linked faces): `face_id_transac` succeeds, leaves the map alone, and returns the minimum of
+    the β1-cycle of `d` together with the β1-cycle of `β3 d` -/
+theorem faceId3_min (hwf : WF 4 m) (hcl : ClosedFaces m) (hM : Mirror m) (hs : Sided m) {d : Nat}
+    (hd : InUse m d) :
+    ∃ v, run (faceId3 (X := Val) m.n d) m = (.ok v, m) ∧ v ∈ faceDarts m d ∧
+      ∀ x, x ∈ faceDarts m d → v ≤ x := by
+  obtain ⟨kpos, hcyc, hnd, hin⟩ := periodB_spec hwf (by omega) hcl hd
+  have he : m.β 3 d < m.n := hwf.range 3 (by omega) d hd.2.1
+  have r1 : ∀ x, x < m.n → m.β 1 x < m.n := hwf.range 1 (by omega)
+  have r0 : ∀ x, x < m.n → m.β 0 x < m.n := hwf.range 0 (by omega)
+  have hklen : (cycleB m d).length = periodB m d := by unfold cycleB; rw [List.length_iterate]
+  have hklt : periodB m d < m.n := by
+    rw [← hklen]
+    exact length_lt_of_nodup hwf.npos hnd (fun x hx => (hin x hx).1) (fun x hx => (hin x hx).2.1)
+  -- the first walk terminates
+  obtain ⟨⟨lbF, rbF, mkF, mnF⟩, hr⟩ := fw_terminates r1 r0 (m.n + 1) d (m.β 3 d) [0]
+    (if m.β 3 d = 0 then d else min d (m.β 3 d)) hd.2.1 he
+    (by have := phi_le (n := m.n) (marked := [0]) hwf.npos (by simp); omega)
+  -- its first `period` rounds are plain steps
+  have hp1 := fw_phase1 (f1 := m.β 1) (f0 := m.β 0) d (m.β 3 d) [0]
+    (if m.β 3 d = 0 then d else min d (m.β 3 d)) (periodB m d) (m.n + 1 - periodB m d) hnd
+    (fun x hx => by
+      have := (hin x hx).1
+      simpa using this)
+  rw [show m.n + 1 - periodB m d + periodB m d = m.n + 1 by omega, hr] at hp1
+  obtain ⟨g1, g2, g3, T, g4, g5⟩ := fw_facts _ _ _ _ _ _ _ _ _ hp1.symm
+  -- membership in the face
+  have memL : ∀ s, (m.β 1)^[s] d ∈ faceDarts m d := fun s =>
+    List.mem_append_left _ (mem_cycleB_iterate hwf (by omega) hcl hd s)
+  have memR : m.β 3 d ≠ 0 → ∀ s, (m.β 0)^[s] (m.β 3 d) ∈ faceDarts m d := by
+    intro h3 s
+    unfold faceDarts
+    rw [if_neg h3]
+    exact List.mem_append_right _ (b0_iter_mem hwf (by omega) hcl (inUse_image4 hwf hd (by omega : 3 < 4) h3) s)
+  have zeroR : m.β 3 d = 0 → ∀ s, (m.β 0)^[s] (m.β 3 d) = 0 := by
+    intro h3 s; rw [h3]; exact iterate_fix0 (hwf.null 0 (by omega)) s
+  have seqMem : ∀ v, v ≠ 0 → ((∃ s, v = (m.β 1)^[s] d) ∨ ∃ s, v = (m.β 0)^[s] (m.β 3 d)) →
+      v ∈ faceDarts m d := by
+    intro v hv0 hv
+    rcases hv with ⟨s, rfl⟩ | ⟨s, rfl⟩
+    · exact memL s
+    · by_cases h3 : m.β 3 d = 0
+      · exact absurd (zeroR h3 s) hv0
+      · exact memR h3 s
+  have mem0 : (if m.β 3 d = 0 then d else min d (m.β 3 d)) ∈ faceDarts m d := by
+    by_cases h3 : m.β 3 d = 0
+    · rw [if_pos h3]; exact memL 0
+    · rw [if_neg h3]
+      rcases Nat.le_total d (m.β 3 d) with hle | hle
+      · rw [Nat.min_eq_left hle]; exact memL 0
+      · rw [Nat.min_eq_right hle]; exact memR h3 0
+  have memK : mnAfter (m.β 1) (m.β 0) d (m.β 3 d) (if m.β 3 d = 0 then d else min d (m.β 3 d))
+      (periodB m d) ∈ faceDarts m d := by
+    rcases mnAfter_mem (m.β 1) (m.β 0) d (m.β 3 d) (if m.β 3 d = 0 then d else min d (m.β 3 d))
+      (periodB m d) with e | ⟨e0, e⟩
+    · rw [e]; exact mem0
+    · exact seqMem _ e0 e
+  have memF : mnF ∈ faceDarts m d := by
+    rcases g2 with e | ⟨e0, e⟩
+    · rw [e]; exact memK
+    · refine seqMem _ e0 ?_
+      rcases e with ⟨s, e⟩ | ⟨s, e⟩
+      · exact Or.inl ⟨s + periodB m d, by rw [e, Function.iterate_add_apply]⟩
+      · exact Or.inr ⟨s + periodB m d, by rw [e, Function.iterate_add_apply]⟩
+  -- lower bound
+  have lowK : ∀ x, x ∈ faceDarts m d →
+      mnAfter (m.β 1) (m.β 0) d (m.β 3 d) (if m.β 3 d = 0 then d else min d (m.β 3 d))
+        (periodB m d) ≤ x := by
+    intro x hx
+    have hle := (mnAfter_le (m.β 1) (m.β 0) d (m.β 3 d)
+      (if m.β 3 d = 0 then d else min d (m.β 3 d)) (periodB m d)).2
+    unfold faceDarts at hx
+    rcases List.mem_append.1 hx with hx | hx
+    · obtain ⟨s, s1, s2, rfl⟩ := cycle_index hwf hcl hd hx
+      exact (hle s s1 s2).1 (hin _ hx).1
+    · by_cases h3 : m.β 3 d = 0
+      · rw [if_pos h3] at hx; simp at hx
+      · rw [if_neg h3] at hx
+        obtain ⟨y, hy, rfl⟩ := ((C20_3d_second_side_is_mirror hwf hcl hM hs hd h3).2 x).1 hx
+        obtain ⟨s, s1, s2, rfl⟩ := cycle_index hwf hcl hd hy
+        have hx0 := ((periodB_spec hwf (by omega) hcl
+          (inUse_image4 hwf hd (by omega : 3 < 4) h3)).2.2.2 _ hx).1
+        rw [← rb_eq hwf hcl hM hs hd h3 s] at hx0 ⊢
+        exact (hle s s1 s2).2 hx0
+  have lowF : ∀ x, x ∈ faceDarts m d → mnF ≤ x := fun x hx => Nat.le_trans g1 (lowK x hx)
+  -- which branch
+  have hlb0 : lbF ≠ 0 := by
+    rw [g4, ← Function.iterate_add_apply]
+    exact (hin _ (mem_cycleB_iterate hwf (by omega) hcl hd _)).1
+  obtain ⟨br1, br2⟩ := run_faceId3 hwf hd.2.1 hr
+  by_cases h3 : m.β 3 d = 0
+  · -- 3-free dart: the backward walk runs (and finds nothing new)
+    have hrb0 : rbF = 0 := by rw [g5, ← Function.iterate_add_apply]; exact zeroR h3 _
+    have hb0 : m.β 0 d ∈ cycleB m d :=
+      (cycleB_closed hwf (by omega) hcl hd (self_mem_cycleB hwf (by omega) hcl hd)).2.1
+    have hb1 : m.β 1 (m.β 3 d) = 0 := by rw [h3]; exact hwf.null 1 (by omega)
+    obtain ⟨⟨a, b, c, mn2⟩, hr2⟩ := fw_terminates (f1 := m.β 0) (f0 := m.β 1) r0 r1 (m.n + 1)
+      (m.β 0 d) (m.β 1 (m.β 3 d)) mkF (upd mnF (m.β 0 d) (m.β 1 (m.β 3 d))) (r0 d hd.2.1)
+      (r1 _ he)
+      (by have := phi_le (n := m.n) (marked := mkF) hwf.npos
+            (g3 0 (List.mem_append_left _ (by simp))); omega)
+    obtain ⟨k1, k2, _, _⟩ := fw_facts _ _ _ _ _ _ _ _ _ hr2
+    have hu := upd_le mnF (m.β 0 d) (m.β 1 (m.β 3 d))
+    have memU : upd mnF (m.β 0 d) (m.β 1 (m.β 3 d)) ∈ faceDarts m d := by
+      rcases upd_mem mnF (m.β 0 d) (m.β 1 (m.β 3 d)) with e | ⟨_, e⟩ | ⟨e0, _⟩
+      · rw [e]; exact memF
+      · rw [e]; exact List.mem_append_left _ hb0
+      · exact absurd hb1 e0
+    refine ⟨mn2, br2 (Or.inr hrb0) a b c mn2 hr2, ?_, fun x hx => Nat.le_trans k1 (Nat.le_trans hu.1 (lowF x hx))⟩
+    rcases k2 with e | ⟨e0, e⟩
+    · rw [e]; exact memU
+    · rcases e with ⟨s, e⟩ | ⟨s, e⟩
+      · rw [e, ← Function.iterate_succ_apply]
+        exact List.mem_append_left _ (b0_iter_mem hwf (by omega) hcl hd _)
+      · rw [hb1, iterate_fix0 (hwf.null 1 (by omega))] at e
+        exact absurd e e0
+  · have hrb0 : rbF ≠ 0 := by
+      rw [g5, ← Function.iterate_add_apply]
+      have hu := inUse_image4 hwf hd (by omega : 3 < 4) h3
+      exact ((periodB_spec hwf (by omega) hcl hu).2.2.2 _ (b0_iter_mem hwf (by omega) hcl hu _)).1
+    exact ⟨mnF, br1 (by rintro (h | h); exact hlb0 h; exact hrb0 h), memF, lowF⟩
+
+/-- the smallest dart of the two-sided face of `d` -/
+def faceMin (m : Map Val) (d : Nat) : Nat := listMin (faceDarts m d) d
+
+theorem self_mem_faceDarts (hwf : WF 4 m) (hcl : ClosedFaces m) {d : Nat} (hd : InUse m d) :
+    d ∈ faceDarts m d := List.mem_append_left _ (self_mem_cycleB hwf (by omega) hcl hd)
+
+theorem run_faceId3_eq (hwf : WF 4 m) (hcl : ClosedFaces m) (hM : Mirror m) (hs : Sided m) {d : Nat}
+    (hd : InUse m d) : run (faceId3 (X := Val) m.n d) m = (.ok (faceMin m d), m) := by
+  obtain ⟨v, hv, h1, h2⟩ := faceId3_min hwf hcl hM hs hd
+  have := min_unique ⟨h1, h2⟩ (listMin_spec (self_mem_faceDarts hwf hcl hd)) (fun _ => Iff.rfl)
+  rw [hv, this]; rfl
+
+theorem faceDarts_inUse (hwf : WF 4 m) (hcl : ClosedFaces m) {d x : Nat} (hd : InUse m d)
+    (hx : x ∈ faceDarts m d) : InUse m x := by
+  unfold faceDarts at hx
+  rcases List.mem_append.1 hx with hx | hx
+  · exact (periodB_spec hwf (by omega) hcl hd).2.2.2 x hx
+  · by_cases h3 : m.β 3 d = 0
+    · rw [if_pos h3] at hx; simp at hx
+    · rw [if_neg h3] at hx
+      exact (periodB_spec hwf (by omega) hcl (inUse_image4 hwf hd (by omega : 3 < 4) h3)).2.2.2 x hx
+
+/-- the images `β1, β0, β3` are closed under inverse -/
+theorem gFace_invClosed (hwf : WF 4 m) : InvClosed (fun y => [m.β 1 y, m.β 0 y, m.β 3 y]) m.n := by
+  intro a ha y hy hy0
+  simp only [List.mem_cons, List.not_mem_nil, or_false] at hy ⊢
+  rcases hy with rfl | rfl | rfl
+  · exact Or.inr (Or.inl (hwf.inv01 a ha hy0).symm)
+  · exact Or.inl (hwf.inv10 a ha hy0).symm
+  · exact Or.inr (Or.inr (hwf.invol 3 (by omega) (by omega) a ha hy0).1.symm)
+
+/-- two darts of one face have the same face -/
+theorem faceDarts_congr (hwf : WF 4 m) (hcl : ClosedFaces m) (hM : Mirror m) (hs : Sided m)
+    {d x : Nat} (hd : InUse m d) (hx : x ∈ faceDarts m d) (y : Nat) :
+    y ∈ faceDarts m x ↔ y ∈ faceDarts m d := by
+  have hxu := faceDarts_inUse hwf hcl hd hx
+  rw [C20_3d_face_darts_are_the_face_orbit hwf hcl hM hs hxu,
+    C20_3d_face_darts_are_the_face_orbit hwf hcl hM hs hd]
+  have hdx := ((C20_3d_face_darts_are_the_face_orbit hwf hcl hM hs hd x).1 hx).2
+  have h0 : ∀ y, y ∈ (fun y => [m.β 1 y, m.β 0 y, m.β 3 y]) 0 → y = 0 := by
+    intro y hy
+    simp only [hwf.null 1 (by omega), hwf.null 0 (by omega), hwf.null 3 (by omega),
+      List.mem_cons, List.not_mem_nil, or_false, or_self] at hy
+    exact hy
+  have hr : ∀ a, a < m.n → ∀ y, y ∈ (fun y => [m.β 1 y, m.β 0 y, m.β 3 y]) a → y < m.n := by
+    intro a ha y hy
+    simp only [List.mem_cons, List.not_mem_nil, or_false] at hy
+    rcases hy with rfl | rfl | rfl
+    · exact hwf.range 1 (by omega) a ha
+    · exact hwf.range 0 (by omega) a ha
+    · exact hwf.range 3 (by omega) a ha
+  have hxd := Reach.symm_of_invClosed h0 hr (gFace_invClosed hwf) hd.2.1 hxu.1 hdx
+  exact ⟨fun ⟨a, b⟩ => ⟨a, hdx.trans b⟩, fun ⟨a, b⟩ => ⟨a, hxd.trans b⟩⟩
+
+theorem faceMin_congr (hwf : WF 4 m) (hcl : ClosedFaces m) (hM : Mirror m) (hs : Sided m)
+    {d x : Nat} (hd : InUse m d) (hx : x ∈ faceDarts m d) : faceMin m x = faceMin m d :=
+  min_unique (listMin_spec (self_mem_faceDarts hwf hcl (faceDarts_inUse hwf hcl hd hx)))
+    (listMin_spec (self_mem_faceDarts hwf hcl hd)) (faceDarts_congr hwf hcl hM hs hd hx)
+
+theorem faceMin_mem (hwf : WF 4 m) (hcl : ClosedFaces m) {d : Nat} (hd : InUse m d) :
+    faceMin m d ∈ faceDarts m d := (listMin_spec (self_mem_faceDarts hwf hcl hd)).1
+
+/-- **`iter_faces` (3-D)** yields exactly the face minima of the in-use darts -/
+theorem mem_iterFaces3_iff (hwf : WF 4 m) (hcl : ClosedFaces m) (hM : Mirror m) (hs : Sided m)
+    (f : Nat) : f ∈ iterFaces3 m ↔ InUse m f ∧ faceMin m f = f := by
+  unfold iterFaces3
+  rw [C03.mem_iterCells]
+  constructor
+  · rintro ⟨h1, h2, h3, h4⟩
+    have hu : InUse m f := ⟨h2, h1, h3⟩
+    rw [run_faceId3_eq hwf hcl hM hs hu, C03.okVal_ok] at h4
+    exact ⟨hu, h4⟩
+  · rintro ⟨hu, h4⟩
+    refine ⟨hu.2.1, hu.1, hu.2.2, ?_⟩
+    rw [run_faceId3_eq hwf hcl hM hs hu, C03.okVal_ok]
+    exact h4
+
+/-- no face is 3-linked to itself (`three_link` refuses to pair two darts of one β1-cycle) -/
+def NoSelfGlue (m : Map Val) : Prop :=
+  ∀ d, d < m.n → d ≠ 0 → m.unused d = false → m.β 3 d ∉ cycleB m d
+
+instance (m : Map Val) : Decidable (NoSelfGlue m) := by unfold NoSelfGlue; exact inferInstance
+
+/-- **C20 (3-D), one dart entity per in-use dart** (closed, mirrored, wholly 3-linked faces, none
+    glued to itself): no dart has two dart entities, and the darts that have one are exactly the
+    in-use darts — the two-sided enumeration `Custom(&[1])` from `id` and from `β3 id` is exact -/
+theorem C20_3d_each_dart_once (hwf : WF 4 m) (hcl : ClosedFaces m) (hM : Mirror m) (hs : Sided m)
+    (hns : NoSelfGlue m) (h : extract3 m = some sc) :
+    (sc.darts.map (·.d)).Nodup ∧ ∀ d, d ∈ sc.darts.map (·.d) ↔ InUse m d := by
+  have key : sc.darts.map (·.d) = (iterFaces3 m).flatMap (faceDarts m) := by
+    have := congrArg (List.map Prod.snd) (C20_3d_dart_entities_of_face hwf hcl h)
+    rw [List.map_map, List.map_flatMap] at this
+    rw [show (fun e : DartEnt => e.d) = Prod.snd ∘ fun e => (e.f, e.d) from rfl, this]
+    apply List.flatMap_congr
+    intro f _
+    rw [List.map_map]
+    simp [Function.comp]
+  rw [key]
+  constructor
+  · rw [List.nodup_flatMap]
+    refine ⟨fun f hf => ?_, ?_⟩
+    · have hfu := mem_iterFaces3_inUse hf
+      exact C20_3d_face_darts_nodup hwf hcl hfu (hns f hfu.2.1 hfu.1 hfu.2.2)
+    · refine List.Pairwise.imp_of_mem ?_ (C03.iterCells_sorted m (faceId3 m.n))
+      intro a b ha hb hab
+      show List.Disjoint (faceDarts m a) (faceDarts m b)
+      intro d hda hdb
+      obtain ⟨hau, ea⟩ := (mem_iterFaces3_iff hwf hcl hM hs a).1 ha
+      obtain ⟨hbu, eb⟩ := (mem_iterFaces3_iff hwf hcl hM hs b).1 hb
+      have e1 := faceMin_congr hwf hcl hM hs hau hda
+      have e2 := faceMin_congr hwf hcl hM hs hbu hdb
+      omega
+  · intro d
+    rw [List.mem_flatMap]
+    constructor
+    · rintro ⟨f, hf, hd⟩
+      exact faceDarts_inUse hwf hcl (mem_iterFaces3_inUse hf) hd
+    · intro hd
+      have hmem := faceMin_mem hwf hcl hd
+      have hfu := faceDarts_inUse hwf hcl hd hmem
+      refine ⟨faceMin m d, (mem_iterFaces3_iff hwf hcl hM hs _).2
+        ⟨hfu, faceMin_congr hwf hcl hM hs hd hmem⟩, ?_⟩
+      exact (faceDarts_congr hwf hcl hM hs hd hmem d).2 (self_mem_faceDarts hwf hcl hd)
+
+end FaceId
+
 /-! ## normals: the exact (un-normalised) part over ℚ
 
   The 3-D system computes at every corner of a face, from `vec_in = p - p_in`, `vec_out = p_out - p`:
@@ -661,6 +999,8 @@ end Mirror3
                                  2-D: the sum is zero for some positive weights iff the corner is a
                                  spike (`vec_out = -t • vec_in`, `t > 0`), and then it IS zero for the
                                  weights `1/|vec_in|, 1/|vec_out|` the code uses (`a = t * b`)
+  * `C20_newell_is_vector_area`  the per-face vector of `VolumeNormals` (Newell's formula) is the sum of
+                                 the cross products of consecutive corners (twice the vector area)
   * `C20_plane_normal_of_scene`  the plane normal the system computes from the table rows of a face
                                  entity is the cross product of the differences of the map's own
                                  coordinates of the vertices of `β1^(i-1) f, β1^i f, β1^(i+1) f`
@@ -881,6 +1221,95 @@ theorem C20_plane_normal_of_scene (hwf : WF 4 m) (hcl : ClosedFaces m) (h : extr
   unfold planeNormalAt
   simp only [a3, b3, c3]
 
+/-! ### the per-face normal of `VolumeNormals` (Newell's formula)
+
+  For every face of a volume the 3-D system accumulates, over the consecutive corner pairs
+  `(v1, v2)` of `orbit(Custom(&[1]), d).chain([d])`,
+  `base.x += (v1.y - v2.y) * (v1.z + v2.z)` (and cyclically for `y`, `z`), then normalises.
+  Exactly: that sum is the sum of the cross products `v1 × v2`, i.e. twice the vector area of the
+  polygon — in particular it is the zero vector exactly when the vector area is. -/
+
+def newellTerm (p q : V3) : V3 :=
+  ((p.2.1 - q.2.1) * (p.2.2 + q.2.2), (p.2.2 - q.2.2) * (p.1 + q.1), (p.1 - q.1) * (p.2.1 + q.2.1))
+
+def vsum (l : List V3) : V3 := l.foldr vadd vzero
+
+/-- the vector the code hands to `normalize` for a face with corner points `ps` -/
+def newell (ps : List V3) : V3 := vsum ((cyclicPairs ps).map (fun pq => newellTerm pq.1 pq.2))
+
+theorem vsum_components (l : List V3) :
+    (vsum l).1 = (l.map (·.1)).sum ∧ (vsum l).2.1 = (l.map (·.2.1)).sum ∧
+      (vsum l).2.2 = (l.map (·.2.2)).sum := by
+  induction l with
+  | nil => simp [vsum, vzero]
+  | cons a t ih =>
+      obtain ⟨h1, h2, h3⟩ := ih
+      simp only [vsum, List.foldr_cons, vadd, List.map_cons, List.sum_cons] at h1 h2 h3 ⊢
+      exact ⟨by rw [h1], by rw [h2], by rw [h3]⟩
+
+theorem sum_zip_sub {α : Type} (g : α → Rat) : ∀ (l1 l2 : List α), l1.length = l2.length →
+    ((l1.zip l2).map (fun p => g p.1 - g p.2)).sum = (l1.map g).sum - (l2.map g).sum := by
+  intro l1
+  induction l1 with
+  | nil => intro l2 h; cases l2 <;> simp at h ⊢
+  | cons a t ih =>
+      intro l2 h
+      cases l2 with
+      | nil => simp at h
+      | cons b t2 =>
+          simp only [List.length_cons, Nat.add_right_cancel_iff] at h
+          simp only [List.zip_cons_cons, List.map_cons, List.sum_cons, ih t2 h]
+          ring
+
+/-- a telescoping sum around a closed polygon vanishes -/
+theorem cyclic_telescope {α : Type} (g : α → Rat) (l : List α) :
+    ((cyclicPairs l).map (fun p => g p.1 - g p.2)).sum = 0 := by
+  unfold cyclicPairs
+  rw [sum_zip_sub g l (l.tail ++ l.take 1) (by cases l <;> simp)]
+  cases l with
+  | nil => simp
+  | cons a t => simp only [List.tail_cons, List.take_succ_cons, List.take_zero, List.map_append,
+      List.sum_append, List.map_cons, List.map_nil, List.sum_cons, List.sum_nil]; ring
+
+/-- **Newell's formula is the sum of the cross products** of consecutive corners (twice the vector
+    area of the face): what the 3-D system normalises for the faces of a volume -/
+theorem C20_newell_is_vector_area (ps : List V3) :
+    newell ps = vsum ((cyclicPairs ps).map (fun pq => cross3 pq.1 pq.2)) := by
+  unfold newell
+  obtain ⟨a1, a2, a3⟩ := vsum_components ((cyclicPairs ps).map (fun pq => newellTerm pq.1 pq.2))
+  obtain ⟨b1, b2, b3⟩ := vsum_components ((cyclicPairs ps).map (fun pq => cross3 pq.1 pq.2))
+  have t1 := cyclic_telescope (fun p : V3 => p.2.1 * p.2.2) ps
+  have t2 := cyclic_telescope (fun p : V3 => p.2.2 * p.1) ps
+  have t3 := cyclic_telescope (fun p : V3 => p.1 * p.2.1) ps
+  have comb : ∀ (f g h : V3 × V3 → Rat) (l : List (V3 × V3)), (∀ x, f x = g x + h x) →
+      (l.map f).sum = (l.map g).sum + (l.map h).sum := by
+    intro f g h l hfg
+    induction l with
+    | nil => simp
+    | cons a t ih => simp only [List.map_cons, List.sum_cons, ih, hfg a]; ring
+  apply v3_ext
+  · rw [a1, b1, List.map_map, List.map_map]
+    rw [comb _ (fun pq => (cross3 pq.1 pq.2).1) (fun pq => pq.1.2.1 * pq.1.2.2 - pq.2.2.1 * pq.2.2.2) _
+      (fun x => by simp only [Function.comp, newellTerm, cross3]; ring)]
+    have : ((cyclicPairs ps).map (fun pq => pq.1.2.1 * pq.1.2.2 - pq.2.2.1 * pq.2.2.2)).sum = 0 := t1
+    rw [this, add_zero]; rfl
+  · rw [a2, b2, List.map_map, List.map_map]
+    rw [comb _ (fun pq => (cross3 pq.1 pq.2).2.1) (fun pq => pq.1.2.2 * pq.1.1 - pq.2.2.2 * pq.2.1) _
+      (fun x => by simp only [Function.comp, newellTerm, cross3]; ring)]
+    have : ((cyclicPairs ps).map (fun pq => pq.1.2.2 * pq.1.1 - pq.2.2.2 * pq.2.1)).sum = 0 := t2
+    rw [this, add_zero]; rfl
+  · rw [a3, b3, List.map_map, List.map_map]
+    rw [comb _ (fun pq => (cross3 pq.1 pq.2).2.2) (fun pq => pq.1.1 * pq.1.2.1 - pq.2.1 * pq.2.2.1) _
+      (fun x => by simp only [Function.comp, newellTerm, cross3]; ring)]
+    have : ((cyclicPairs ps).map (fun pq => pq.1.1 * pq.1.2.1 - pq.2.1 * pq.2.2.1)).sum = 0 := t3
+    rw [this, add_zero]; rfl
+
+-- the unit square in the plane z = 0: Newell vector (0, 0, 2) = twice the area, along +z
+example : newell [(0, 0, 0), (1, 0, 0), (1, 1, 0), (0, 1, 0)] = (0, 0, 2) := by decide +kernel
+example : newell [(0, 0, 0), (1, 0, 0), (1, 1, 0), (0, 1, 0)] =
+    vsum ((cyclicPairs [((0, 0, 0) : V3), (1, 0, 0), (1, 1, 0), (0, 1, 0)]).map
+      (fun pq => cross3 pq.1 pq.2)) := C20_newell_is_vector_area _
+
 end Normals
 
 /-! ## the keys of `FaceNormals` and `VolumeNormals` -/
@@ -1012,5 +1441,365 @@ theorem C20_3d_volume_normal_keys (hwf : WF 4 m) (h : extract3 m = some sc) :
     exact ⟨keys, hkeys, (one vol keys hv hF vol r).2 ⟨rfl, rest⟩⟩
 
 end Keys
+
+/-! ## the 3-D extraction does not panic on embedded maps with closed mirrored faces -/
+
+section NoPanic3
+open HC.Face3 HC.Cell3
+variable {m : Map Val}
+
+theorem run_genVid3_ok (hwf : WF 4 m) {x : Nat} (hx : x < m.n) :
+    run (genVid3 (X := Val) x) m = (.ok (g3v m x), m) := by
+  have r : ∀ i, i < 4 → ∀ y, y < m.n → m.β i y < m.n := fun i hi y hy => hwf.range i hi y hy
+  simp [genVid3, g3v, run_rB, okb4 hwf (by omega : 0 < 4) hx, okb4 hwf (by omega : 2 < 4) hx,
+    okb4 hwf (by omega : 3 < 4) hx, okb4 hwf (by omega : 1 < 4) (r 3 (by omega) x hx),
+    okb4 hwf (by omega : 3 < 4) (r 2 (by omega) x hx), okb4 hwf (by omega : 1 < 4) (r 2 (by omega) x hx),
+    okb4 hwf (by omega : 3 < 4) (r 0 (by omega) x hx), okb4 hwf (by omega : 2 < 4) (r 0 (by omega) x hx),
+    okb4 hwf (by omega : 2 < 4) (r 3 (by omega) x hx)]
+
+theorem vertexId3_runs (hwf : WF 4 m) {d : Nat} (hd0 : d ≠ 0) (hd : d < m.n) :
+    ∃ v, run (vertexId3 (X := Val) m.n d) m = (.ok v, m) ∧ IsVid3 m d v := by
+  obtain ⟨v, hv⟩ := popLoop_start (g := g3v m) (gen := genVid3) (fun x hx => run_genVid3_ok hwf hx)
+    (fun x => by simp [g3v]) (g3v_range hwf) hd
+  exact ⟨v, hv, (vertexId3_spec hwf hd0 hd hv).2⟩
+
+theorem edgeId3_runs (hwf : WF 4 m) {d : Nat} (hd : d < m.n) :
+    ∃ v, run (edgeId3 (X := Val) m.n d) m = (.ok v, m) := by
+  unfold edgeId3
+  apply popLoop_start (g := fun e => [m.β 2 e, m.β 3 e])
+  · intro x hx
+    simp [run_rB, okb4 hwf (by omega : 2 < 4) hx, okb4 hwf (by omega : 3 < 4) hx]
+  · intro x; simp
+  · intro x hx y hy
+    simp only [List.mem_cons, List.not_mem_nil, or_false] at hy
+    rcases hy with rfl | rfl
+    · exact hwf.range 2 (by omega) x hx
+    · exact hwf.range 3 (by omega) x hx
+  · exact hd
+
+theorem volumeId3_runs (hwf : WF 4 m) {d : Nat} (hd : d < m.n) :
+    ∃ v, run (volumeId3 (X := Val) m.n d) m = (.ok v, m) := by
+  unfold volumeId3
+  apply popLoop_start (g := fun e => [m.β 1 e, m.β 0 e, m.β 2 e])
+  · intro x hx
+    simp [run_rB, okb4 hwf (by omega : 1 < 4) hx, okb4 hwf (by omega : 0 < 4) hx,
+      okb4 hwf (by omega : 2 < 4) hx]
+  · intro x; simp
+  · intro x hx y hy
+    simp only [List.mem_cons, List.not_mem_nil, or_false] at hy
+    rcases hy with rfl | rfl | rfl
+    · exact hwf.range 1 (by omega) x hx
+    · exact hwf.range 0 (by omega) x hx
+    · exact hwf.range 2 (by omega) x hx
+  · exact hd
+
+/-- non-null images of in-use darts under compositions of β's are in use -/
+theorem inUse_g3v (hwf : WF 4 m) {x y : Nat} (hx : InUse m x) (hy : y ∈ g3v m x) (hy0 : y ≠ 0) :
+    InUse m y := by
+  have z : ∀ i, i < 4 → m.β i 0 = 0 := hwf.null
+  have two : ∀ i j, i < 4 → j < 4 → m.β i (m.β j x) ≠ 0 → InUse m (m.β i (m.β j x)) := by
+    intro i j hi hj hne
+    have hj0 : m.β j x ≠ 0 := by intro e; rw [e, z i hi] at hne; exact hne rfl
+    exact inUse_image4 hwf (inUse_image4 hwf hx hj hj0) hi hne
+  simp only [g3v, List.mem_cons, List.not_mem_nil, or_false] at hy
+  rcases hy with rfl | rfl | rfl | rfl | rfl | rfl
+  · exact two 1 3 (by omega) (by omega) hy0
+  · exact two 3 2 (by omega) (by omega) hy0
+  · exact two 1 2 (by omega) (by omega) hy0
+  · exact two 3 0 (by omega) (by omega) hy0
+  · exact two 2 0 (by omega) (by omega) hy0
+  · exact two 2 3 (by omega) (by omega) hy0
+
+theorem reach_g3v_inUse (hwf : WF 4 m) {d x : Nat} (hd : InUse m d) (hr : Reach (g3v m) d x)
+    (hx0 : x ≠ 0) : InUse m x := by
+  induction hr with
+  | refl => exact hd
+  | tail hab hc ih =>
+      have hb0 := Reach.pred_ne_zero (g3v_null hwf) hc hx0
+      exact inUse_g3v hwf (ih hb0) hc hx0
+
+/-- `vertex_id` of an in-use dart succeeds and is an id of `iter_vertices` -/
+theorem vid3_mem (hwf : WF 4 m) {d : Nat} (hd : InUse m d) :
+    ∃ v, (reader3 m).vid d = some v ∧ v ∈ iterVertices3 m := by
+  obtain ⟨v, hv, hvid⟩ := vertexId3_runs hwf hd.1 hd.2.1
+  obtain ⟨hv0, hvn⟩ := sameCell_ne_zero hwf hd.1 hd.2.1 hvid.1
+  have hreach := ((sameCell_iff_reach (g3v_null hwf) (g3v_range hwf) (g3v_invClosed hwf) hd.1 hd.2.1 v).1
+    hvid.1).2
+  have hvu := reach_g3v_inUse hwf hd hreach hv0
+  obtain ⟨v', hv', hvid'⟩ := vertexId3_runs hwf hv0 hvn
+  have e : v' = v := IsVid3.unique hvid' (IsVid3.congr hvid hvid.1) (IsVid3.ne_zero hwf hv0 hvn hvid') hv0
+  refine ⟨v, evalP_of_run hv, ?_⟩
+  unfold iterVertices3
+  rw [C03.mem_iterCells]
+  refine ⟨hvn, hv0, hvu.2.2, ?_⟩
+  rw [hv', C03.okVal_ok]; exact e
+
+theorem lookups3_inUse (hwf : WF 4 m) {d : Nat} (hd : InUse m d) :
+    (∃ r, (reader3 m).rowOfDart d = some r) ∧ (∃ v, (reader3 m).vid d = some v) ∧
+      (∃ e, (reader3 m).eid d = some e) ∧ ∃ c, (reader3 m).volid d = some c := by
+  obtain ⟨v, hv, hmem⟩ := vid3_mem hwf hd
+  obtain ⟨r, hr⟩ := rowOf_of_mem hmem
+  obtain ⟨e, he⟩ := edgeId3_runs hwf hd.2.1
+  obtain ⟨c, hc⟩ := volumeId3_runs hwf hd.2.1
+  refine ⟨⟨r, ?_⟩, ⟨v, hv⟩, ⟨e, evalP_of_run he⟩, ⟨c, evalP_of_run hc⟩⟩
+  unfold Reader.rowOfDart
+  rw [hv]; exact hr
+
+/-- every vertex id of the 3-map has coordinates -/
+def Embedded3 (m : Map Val) : Prop := ∀ v, v ∈ iterVertices3 m → (m.att 0 v).isSome = true
+
+instance (m : Map Val) : Decidable (Embedded3 m) := by unfold Embedded3; exact inferInstance
+
+theorem uniqueByKey_subset : ∀ (l : List (Nat × Nat)) (seen : List Nat) (x : Nat),
+    x ∈ uniqueByKey l seen → ∃ k, (x, k) ∈ l := by
+  intro l
+  induction l with
+  | nil => intro seen x h; simp [uniqueByKey] at h
+  | cons p rest ih =>
+      intro seen x h
+      obtain ⟨d, k⟩ := p
+      unfold uniqueByKey at h
+      by_cases c : seen.contains k = true
+      · rw [if_pos c] at h
+        obtain ⟨k', hk'⟩ := ih seen x h
+        exact ⟨k', List.mem_cons_of_mem _ hk'⟩
+      · rw [if_neg c] at h
+        rcases List.mem_cons.1 h with rfl | h
+        · exact ⟨k, List.mem_cons_self⟩
+        · obtain ⟨k', hk'⟩ := ih _ x h
+          exact ⟨k', List.mem_cons_of_mem _ hk'⟩
+
+theorem reach_gVol_inUse (hwf : WF 4 m) {d x : Nat} (hd : InUse m d) (hr : Reach (gVol m) d x)
+    (hx0 : x ≠ 0) : InUse m x := by
+  induction hr with
+  | refl => exact hd
+  | tail hab hc ih =>
+      rename_i b c
+      have hb0 : b ≠ 0 := by
+        intro e
+        simp only [gVol, e, hwf.null 1 (by omega), hwf.null 0 (by omega), hwf.null 2 (by omega),
+          List.mem_cons, List.not_mem_nil, or_false, or_self] at hc
+        exact hx0 hc
+      have hb := ih hb0
+      simp only [gVol, List.mem_cons, List.not_mem_nil, or_false] at hc
+      rcases hc with rfl | rfl | rfl
+      · exact inUse_image4 hwf hb (by omega) hx0
+      · exact inUse_image4 hwf hb (by omega) hx0
+      · exact inUse_image4 hwf hb (by omega) hx0
+
+/-- **C20 (3-D), the extraction succeeds**: on a well-formed 3-map whose in-use darts all lie on
+    closed, mirrored, wholly 3-linked faces of at least two sides and whose vertex ids all have
+    coordinates, the start-up system does not panic -/
+theorem C20_3d_no_panic (hwf : WF 4 m) (hcl : ClosedFaces m) (hnl : NoLoops m) (hM : Mirror m)
+    (hs : Sided m) (hemb : Embedded3 m) : ∃ sc, extract3 m = some sc := by
+  have hsc0 : ∃ sc0, extractWith (reader3 m) (some []) = some sc0 := by
+    apply extractWith_isSome
+    · intro v hv
+      exact Option.isSome_iff_exists.1 (hemb v hv)
+    · intro id hid
+      obtain ⟨h1, h2, h3, _⟩ := (C03.mem_iterCells m _ id).1 hid
+      have hu : InUse m id := ⟨h2, h1, h3⟩
+      obtain ⟨⟨r1, hr1⟩, _⟩ := lookups3_inUse hwf hu
+      have hend : InUse m ((reader3 m).edgeEnd id) := by
+        show InUse m (if m.β 3 id = 0 then (if m.β 2 id = 0 then m.β 1 id else m.β 2 id) else m.β 3 id)
+        by_cases k3 : m.β 3 id = 0
+        · rw [if_pos k3]
+          by_cases k2 : m.β 2 id = 0
+          · rw [if_pos k2]; exact inUse_image4 hwf hu (by omega) (hcl id h1 hu.1 h3)
+          · rw [if_neg k2]; exact inUse_image4 hwf hu (by omega) k2
+        · rw [if_neg k3]; exact inUse_image4 hwf hu (by omega) k3
+      obtain ⟨⟨r2, hr2⟩, _⟩ := lookups3_inUse hwf hend
+      unfold edgeBundle
+      rw [hr1, hr2]
+      exact ⟨_, rfl⟩
+    · intro f hf
+      have hfu := mem_iterFaces3_inUse hf
+      obtain ⟨hit, hpos, _, hcyc, hin⟩ := walkB_cycle hwf (by omega) hcl hfu
+      refine faceBundle_isSome (walk3_eq hwf hfu.1 hfu.2.1) (side2_eq hwf hcl hfu) ?_ ?_
+      · by_contra hlt
+        have h1 : (walkB m f).length = 1 := by omega
+        rw [h1] at hcyc
+        exact hnl f hfu.2.1 hfu.1 hfu.2.2 hcyc
+      · intro d hd
+        rcases List.mem_append.1 hd with hd | hd
+        · exact lookups3_inUse hwf (hin d hd)
+        · by_cases k3 : m.β 3 f = 0
+          · rw [if_pos k3] at hd; simp at hd
+          · rw [if_neg k3] at hd
+            exact lookups3_inUse hwf ((periodB_spec hwf (by omega) hcl
+              (inUse_image4 hwf hfu (by omega : 3 < 4) k3)).2.2.2 d hd)
+  obtain ⟨sc0, h0⟩ := hsc0
+  have hvk : ∃ k, volKeys3 m (reader3 m) = some k := by
+    unfold volKeys3
+    have key : ∀ vol, vol ∈ iterVolumes3 m → ∃ keys,
+        (match evalP (orbit3 m.n .volume vol) m with
+        | none => none
+        | some ds =>
+          match mapO (fun d => evalP (faceId3 m.n d) m) ds with
+          | none => none
+          | some fids =>
+            match mapO (fun d => ((reader3 m).walk d).bind
+                (fun w => mapO (reader3 m).rowOfDart (w ++ [d]))) (uniqueByKey (ds.zip fids) []),
+              mapO (reader3 m).rowOfDart ds with
+            | some _, some rows => some (rows.map (fun r => (vol, r)))
+            | _, _ => none) = some keys := by
+      intro vol hvol
+      obtain ⟨h1, h2, h3, _⟩ := (C03.mem_iterCells m _ vol).1 hvol
+      have hvu : InUse m vol := ⟨h2, h1, h3⟩
+      obtain ⟨ds, hds, hmem⟩ := volume_orbit_eq hwf h2 h1
+      have hdsu : ∀ d, d ∈ ds → InUse m d := fun d hd =>
+        reach_gVol_inUse hwf hvu ((hmem d).1 hd).2 ((hmem d).1 hd).1
+      obtain ⟨fids, hfids⟩ := mapO_isSome (f := fun d => evalP (faceId3 m.n d) m) (l := ds)
+        fun d hd => ⟨_, evalP_of_run (run_faceId3_eq hwf hcl hM hs (hdsu d hd))⟩
+      obtain ⟨x1, hx1⟩ := mapO_isSome (f := fun d => ((reader3 m).walk d).bind
+          (fun w => mapO (reader3 m).rowOfDart (w ++ [d]))) (l := uniqueByKey (ds.zip fids) []) (by
+        intro d hd
+        obtain ⟨k, hk⟩ := uniqueByKey_subset _ _ _ hd
+        have hdu := hdsu d (List.of_mem_zip hk).1
+        rw [walk3_eq hwf hdu.1 hdu.2.1]
+        simp only [Option.bind_some]
+        apply mapO_isSome
+        intro y hy
+        rcases List.mem_append.1 hy with hy | hy
+        · exact (lookups3_inUse hwf ((walkB_cycle hwf (by omega) hcl hdu).2.2.2.2 y hy)).1
+        · simp only [List.mem_singleton] at hy
+          rw [hy]; exact (lookups3_inUse hwf hdu).1)
+      obtain ⟨rows, hrows⟩ := mapO_isSome (f := (reader3 m).rowOfDart) (l := ds)
+        fun d hd => (lookups3_inUse hwf (hdsu d hd)).1
+      rw [hds]
+      simp only [hfids, hx1, hrows]
+      exact ⟨_, rfl⟩
+    obtain ⟨per, hper⟩ := mapO_isSome key
+    refine ⟨per.flatten, ?_⟩
+    rw [Option.map_eq_some_iff]
+    exact ⟨per, hper, rfl⟩
+  obtain ⟨k, hk⟩ := hvk
+  unfold extract3
+  simp only [h0, hk]
+  exact ⟨_, rfl⟩
+
+end NoPanic3
+
+/-! ## non-vacuity -/
+
+theorem exP_closed : ClosedFaces exP := by decide
+theorem exP_mirror : Mirror exP := exP_wf.2
+theorem exP_sided : Sided exP := by decide
+theorem exP_inUse1 : InUse exP 1 := by decide
+
+example : cycleB exP 1 = [1, 2, 3] ∧ cycleB exP 4 = [4, 5, 6] ∧ periodB exP 1 = 3 := by decide +kernel
+example : walkB exP 1 = List.iterate (exP.β 1) 1 (walkB exP 1).length ∧ (exP.β 1)^[(walkB exP 1).length] 1 = 1 :=
+  let h := walkB_cycle exP_wf.1 (by omega) exP_closed exP_inUse1
+  ⟨h.1, h.2.2.2.1⟩
+-- dart 4 lies on the SECOND side of face 1: its end row 0 is the row of the vertex of β1 4 = 5 (point A)
+example : ∃ v' x, evalP (vertexId3 exP.n (exP.β 1 4)) exP = some v' ∧
+    rowOf (iterVertices3 exP) v' = some 0 ∧ exPScene.table[0]? = some x ∧ exP.att 0 v' = some x :=
+  C20_3d_dart_end exP_wf.1 exP_closed exP_scene (e := ⟨4, 2, 1, 1, 4, 1, 0⟩) (by decide)
+example : (exP.β 1)^[3] 1 = 1 ∧ (List.iterate (exP.β 1) 1 3).Nodup :=
+  let h := (C20_3d_face_corners exP_wf.1 exP_closed exP_scene).2 1 [0, 1, 2] (by decide)
+  ⟨h.2.1, h.2.2.1⟩
+example : faceDarts exP 1 = [1, 2, 3, 4, 5, 6] := by decide +kernel
+example : exPScene.darts.map (fun e => (e.f, e.d)) =
+    (iterFaces3 exP).flatMap (fun f => (faceDarts exP f).map (fun d => (f, d))) :=
+  C20_3d_dart_entities_of_face exP_wf.1 exP_closed exP_scene
+example : iterFaces3 exP = [1] := by decide +kernel
+-- second side = mirror of the first: β1 (β3 1) = 5 = β3 (β0 1) = β3 3
+example : (exP.β 1)^[1] (exP.β 3 1) = exP.β 3 ((exP.β 0)^[1] 1) :=
+  (C20_3d_second_side_is_mirror exP_wf.1 exP_closed exP_mirror exP_sided exP_inUse1 (by decide)).1 1
+example : 5 ∈ cycleB exP (exP.β 3 1) ↔ ∃ y, y ∈ cycleB exP 1 ∧ 5 = exP.β 3 y :=
+  (C20_3d_second_side_is_mirror exP_wf.1 exP_closed exP_mirror exP_sided exP_inUse1 (by decide)).2 5
+example : 6 ∈ faceDarts exP 1 ↔ 6 ≠ 0 ∧ Reach (fun y => [exP.β 1 y, exP.β 0 y, exP.β 3 y]) 1 6 :=
+  C20_3d_face_darts_are_the_face_orbit exP_wf.1 exP_closed exP_mirror exP_sided exP_inUse1 6
+example : (faceDarts exP 1).Nodup :=
+  C20_3d_face_darts_nodup exP_wf.1 exP_closed exP_inUse1 (by decide +kernel)
+example : exPScene.fnKeys = exPScene.faces.flatMap (fun p => p.2.map (fun r => (p.1, r))) :=
+  C20_3d_face_normal_keys exP_scene
+example : exTScene.fnKeys = exTScene.faces.flatMap (fun p => p.2.map (fun r => (p.1, r))) :=
+  C20_face_normal_keys exT_scene
+-- volume 4 (the second side, a volume of its own) reaches dart 5, whose vertex A sits in row 0
+example : ∃ ks, exPScene.vnKeys = some ks ∧ ((4, 0) ∈ ks ↔ 4 ∈ iterVolumes3 exP ∧
+    ∃ d, d ≠ 0 ∧ Reach (gVol exP) 4 d ∧ (reader3 exP).rowOfDart d = some 0) := by
+  obtain ⟨ks, h1, h2⟩ := C20_3d_volume_normal_keys exP_wf.1 exP_scene
+  exact ⟨ks, h1, h2 4 0⟩
+example : exPScene.vnKeys = some [(1, 0), (1, 1), (1, 2), (4, 1), (4, 0), (4, 2)] := rfl
+
+/-- a square folded onto itself: `β3` pairs `1↔2`, `3↔4` on the ONE β1-cycle `1 2 3 4` — well-formed
+    and mirrored, but `three_link` refuses it; the scene has every dart entity twice -/
+def exSelf : Map Val :=
+  { n := 5
+    b := #[#[0, 4, 1, 2, 3], #[0, 2, 3, 4, 1], #[0, 0, 0, 0, 0], #[0, 2, 1, 4, 3]]
+    u := #[false, false, false, false, false]
+    a := #[#[none, some (.pt 0 0 0), some (.pt 1 0 0), some (.pt 1 1 0), some (.pt 0 1 0)]] }
+
+example : WF 4 exSelf ∧ Mirror exSelf ∧ Sided exSelf ∧ ClosedFaces exSelf := by decide
+example : (faceDarts exSelf 1).count 3 = 2 :=
+  C20_3d_self_glued_face_twice (m := exSelf) (by decide) (by decide) (by decide) (by decide)
+    (by decide +kernel) (by decide +kernel)
+example : faceDarts exSelf 1 = [1, 2, 3, 4, 2, 3, 4, 1] := by decide +kernel
+
+-- `face_id` in 3-D: dart 5 (second side) has face id 1, the minimum over both sides
+theorem exP_noSelfGlue : NoSelfGlue exP := by decide +kernel
+example : faceMin exP 5 = 1 := by decide +kernel
+example : run (faceId3 (X := Val) exP.n 5) exP = (.ok (faceMin exP 5), exP) :=
+  run_faceId3_eq exP_wf.1 exP_closed exP_mirror exP_sided (by decide)
+example : ∃ v, run (faceId3 (X := Val) exP.n 5) exP = (.ok v, exP) ∧ v ∈ faceDarts exP 5 ∧
+    ∀ x, x ∈ faceDarts exP 5 → v ≤ x :=
+  faceId3_min exP_wf.1 exP_closed exP_mirror exP_sided (by decide)
+example : 1 ∈ iterFaces3 exP ↔ InUse exP 1 ∧ faceMin exP 1 = 1 :=
+  mem_iterFaces3_iff exP_wf.1 exP_closed exP_mirror exP_sided 1
+-- every in-use dart of the two-sided triangle has exactly one dart entity
+example : (exPScene.darts.map (·.d)).Nodup ∧ ∀ d, d ∈ exPScene.darts.map (·.d) ↔ InUse exP d :=
+  C20_3d_each_dart_once exP_wf.1 exP_closed exP_mirror exP_sided exP_noSelfGlue exP_scene
+-- the self-glued square violates `NoSelfGlue`, and its scene has repeated darts
+example : ¬ NoSelfGlue exSelf := by decide +kernel
+
+-- the 3-D extraction does not panic on the two-sided triangle
+example : ∃ sc, extract3 exP = some sc :=
+  C20_3d_no_panic exP_wf.1 exP_closed (by decide) exP_mirror exP_sided (by decide +kernel)
+example : ∃ v, (reader3 exP).vid 5 = some v ∧ v ∈ iterVertices3 exP := vid3_mem exP_wf.1 (by decide)
+
+/-- a pentagon in a 3-map with a straight corner at dart 2 (a vertex in the middle of the side
+    `(0,0,0)–(2,0,0)`): the configuration of finding D20a -/
+def exStraight : Map Val :=
+  { n := 6
+    b := #[#[0, 5, 1, 2, 3, 4], #[0, 2, 3, 4, 5, 1], #[0, 0, 0, 0, 0, 0], #[0, 0, 0, 0, 0, 0]]
+    u := #[false, false, false, false, false, false]
+    a := #[#[none, some (.pt 0 0 0), some (.pt 1 0 0), some (.pt 2 0 0), some (.pt 2 1 1),
+             some (.pt 0 1 1)]] }
+
+def exStraightScene : Scene :=
+  { table := [.pt 0 0 0, .pt 1 0 0, .pt 2 0 0, .pt 2 1 1, .pt 0 1 1]
+    verts := [(1, 0), (2, 1), (3, 2), (4, 3), (5, 4)]
+    edges := [(1, 0, 1), (2, 1, 2), (3, 2, 3), (4, 3, 4), (5, 4, 0)]
+    faces := [(1, [0, 1, 2, 3, 4])]
+    darts := [⟨1, 1, 1, 1, 1, 0, 1⟩, ⟨2, 2, 2, 1, 1, 1, 2⟩, ⟨3, 3, 3, 1, 1, 2, 3⟩,
+              ⟨4, 4, 4, 1, 1, 3, 4⟩, ⟨5, 5, 5, 1, 1, 4, 0⟩]
+    fnKeys := [(1, 0), (1, 1), (1, 2), (1, 3), (1, 4)]
+    vnKeys := some [(1, 0), (1, 1), (1, 4), (1, 2), (1, 3)] }
+
+theorem exStraight_scene : extract3 exStraight = some exStraightScene := by decide +kernel
+
+-- the plane normal at corner 1 comes from the map's coordinates of the vertices of darts 1, 2, 3 …
+example := C20_plane_normal_of_scene (m := exStraight) (by decide) (by decide) exStraight_scene
+  (f := 1) (rows := [0, 1, 2, 3, 4]) (by decide) (i := 1) (by decide)
+-- … and is the zero vector there (D20a), but not at corner 0
+example : planeNormalAt exStraightScene.table [0, 1, 2, 3, 4] 1 = vzero := by decide +kernel
+example : planeNormalAt exStraightScene.table [0, 1, 2, 3, 4] 0 ≠ vzero := by decide +kernel
+example : cross3 (1, 0, 0) (1, 0, 0) = vzero ↔ ∃ t : Rat, ((1, 0, 0) : V3) = vsmul t (1, 0, 0) :=
+  C20_D20a_zero_normal_iff (1, 0, 0) (1, 0, 0) (by decide)
+example : ∃ t : Rat, ((1, 0, 0) : V3) = vsmul t (1, 0, 0) := ⟨1, by decide +kernel⟩
+example : cross3 (vsub (1, 0, 0) (0, 0, 0)) (vsub (2, 0, 0) (1, 0, 0)) = vzero := by
+  have := C20_D20a_straight_corner (0, 0, 0) (2, 0, 0) (1 / 2)
+  have e : vadd ((0, 0, 0) : V3) (vsmul (1 / 2) (vsub (2, 0, 0) (0, 0, 0))) = (1, 0, 0) := by
+    decide +kernel
+  simp only [e] at this
+  exact this
+example : vadd (vsmul 1 (cross3 (1, 0, 0) (cross3 (1, 0, 0) (0, 1, 0))))
+    (vsmul 1 (cross3 (0, 1, 0) (cross3 (1, 0, 0) (0, 1, 0)))) ≠ vzero :=
+  C20_3d_normal_nonzero (1, 0, 0) (0, 1, 0) 1 1 (by decide) (by decide) (by decide +kernel)
+-- 2-D: a straight corner is fine, a spike is not
+example : ¬ ((1 : Rat) * 0 - 0 * 1 = 0 ∧ (1 : Rat) * 1 + 0 * 0 < 0) := by decide +kernel
+example := (C20_2d_normal_nonzero_iff (1, 0) (-2, 0) (by decide) (by decide)).2 (by decide +kernel)
+example := C20_2d_spike_zero (1, 0) 2 1 (1 / 2) (by decide +kernel)
 
 end HC.C20
